@@ -416,7 +416,8 @@ fn split(c: &ChangeV1) -> Vec<ChangeV1> {
 
 /// case: cluster <nnodes> <nops> { T n k {I|U|X row val}*k | B n m mode | S n m {0 loss-free|1 every second answer lost|2 only relayed versions arrive} | A n } <rounds>
 ///  B modes: 0 in order, 1 reversed, 2 every second dropped, 3 each twice, 4 split in two and only the first half,
-///           5 split in two, second half first
+///           5 split in two, second half first, 6 split in two and only the second half (the receiver then
+///           holds a part of the version that does not start at seq 0)
 pub fn cluster(t: &mut Toks) -> String {
     PANICS.lock().unwrap().clear();
     let rt = tokio::runtime::Builder::new_multi_thread().worker_threads(4).enable_all().build().unwrap();
@@ -505,6 +506,7 @@ pub fn cluster(t: &mut Toks) -> String {
                         3 => pending.iter().flat_map(|c| vec![c.clone(), c.clone()]).collect(),
                         4 => pending.iter().map(|c| split(c)[0].clone()).collect(),
                         5 => pending.iter().flat_map(|c| split(c).into_iter().rev().collect::<Vec<_>>()).collect(),
+                        6 => pending.iter().map(|c| split(c).last().unwrap().clone()).collect(),
                         _ => pending,
                     };
                     if !list.is_empty() {
